@@ -389,6 +389,13 @@ impl Property for C16 {
     fn check(case: &FileCase, env: &mut Env) -> Verdict {
         check_c16_case(case, env)
     }
+    fn hang_is_violation() -> bool {
+        // an open that never returns is neither success nor one of the documented errors
+        true
+    }
+    fn case_timeout_s() -> u64 {
+        60
+    }
     fn from_fuzz_bytes(d: &[u8]) -> Option<FileCase> {
         Some(crate::fuzzdec::decode_file_case(d))
     }
@@ -429,6 +436,7 @@ impl Property for C16 {
                         rec,
                         use_c: true,
                     };
+                    watch_case(&case);
                     let vd = check_c16_case(&case, env);
                     ex.evaluations += 1 + vd.sub_evals;
                     if vd.nontrivial {
